@@ -881,7 +881,8 @@ def concurrent_scenario(res, tag, single, k, rng, rounds):
             # two more clients read ONE shared file; the first gives up with an ERROR after its first
             # window - which must not take anything away from the second (or from later rounds)
             shared = b"".join(X.payload(4000 + i, 512 if i < 4 else 99) for i in range(1, 5))
-            open(os.path.join(sb.send, "shared.bin"), "wb").write(shared)
+            if rnd == 0:
+                open(os.path.join(sb.send, "shared.bin"), "wb").write(shared)      # once: it must still be there in later rounds
 
             def quitter(c, burst):
                 return [("err",)]
@@ -927,6 +928,8 @@ def concurrent_scenario(res, tag, single, k, rng, rounds):
                 wrong = (c.wire_from != {srv.port}) if single else (srv.port in c.wire_from and c.started and len(c.wire_from) != 1)
                 if c.started and wrong:
                     req_events.append({"e": "portmix", "label": c.label, "ports": sorted(c.wire_from)})
+                if not c.started:
+                    req_events.append({"e": "notserved", "label": c.label, "notes": repr(c.notes)})
                 if len(old_socks) < 3 and c.finished_ok:
                     c.wire_from = set()
                     old_socks.append(c.sock)      # this endpoint comes back with a new request next round
@@ -1002,7 +1005,7 @@ def c12(res):
         # intruder exchanges: Trace_Requests (foreign packets must get ERROR 4 from the listener)
         sbdevs = judge_net_trace(res, [e for e in re_ if e.get("e") in ("cfg", "req")], tag + "-intruder")
         for e in re_:
-            if e.get("e") in ("portmix", "diskdiff"):
+            if e.get("e") in ("portmix", "diskdiff", "notserved"):
                 res.add_violation("%s|%s|%s" % (e["e"], tag, e["label"]), "C12: %s in %s: %s" % (e["e"], tag, json.dumps(e)),
                                   {"kind": "net-scenario", "event": e, "seed": C.seed()})
         if not alive:
